@@ -1320,6 +1320,13 @@ func harnessC13start() {
 		wCmdPath = "/d/link/../wplugin"
 		wRegular[wCmdPath] = d
 		wRegular["/d/wplugin"] = c
+	} else if o.cmd && vChoice(2) == 1 {
+		// the command has a working directory and an absolute Path: the kernel executes Path as it stands (digest d); a
+		// file of the same name below the working directory is a decoy whose digest IS the configured checksum
+		vCover("working-directory-set")
+		wCmdDir = "/work"
+		wRegular["/bin/wplugin"] = d
+		wRegular["/work/bin/wplugin"] = c
 	} else {
 		wRegular["/bin/wplugin"] = d
 	}
